@@ -15,4 +15,18 @@ CHECKS = {
         "note": "Trusted: clvmr; bounds as stated in the evidence. Cost and step limits are outside the comparison.",
         "technique": "TLA+ spec (Clvm, ClvmStepper) + TLC refinement check + replay/trace validation against run_step",
     },
+    "C07": {
+        "level": "model_checking",
+        "text": "RichValues.tla transcribes the conversion and equality case analysis; TLC checks the round trip for every atom of <= 2 bytes and boundary atoms beyond, both integer modes, and equality-iff-same-encoding over all spelling pairs; every enumerated case is replayed through the real conversion functions and the three tree hashes are compared; random long atoms/trees are trace-validated.",
+        "design_ref": "DESIGN.md section 4 C07",
+        "note": "Trusted: clvmr tree hash. SHA-256 is uninterpreted in the specification (agreement of three implementations + functional/injective consistency).",
+        "technique": "TLA+ spec (RichValues) + TLC exhaustive atoms <= 2 bytes + replay into convert_*_clvm_rs/sha256tree + trace validation",
+    },
+    "C08": {
+        "level": "model_checking",
+        "text": "Serialize.tla models the encoder, a reference decoder and the implementation's op-stack/value-stack decoder machine (with its ignored errors); TLC runs the machine step by step on every byte string below the bound and asserts it never returns a value the reference decoder does not; every string is replayed through sexp_from_stream and clvmr; random/mutated encodings and MiB-sized atoms are trace-validated.",
+        "design_ref": "DESIGN.md section 4 C08",
+        "note": "Trusted: clvmr serde. Multi-MiB contents are compared by digest; TLC sees length and prefix only.",
+        "technique": "TLA+ spec (Serialize) + TLC exhaustive byte strings + replay into sexp_from_stream/sexp_to_stream + trace validation",
+    },
 }
